@@ -8,54 +8,110 @@ import (
 	"github.com/ory/fosite"
 )
 
-// faultState: at most one armed fault per step; probes and other harness-internal calls are exempt (suspend>0).
+// faultState: the faults armed for the current step (one, or a pair); probes and other harness-internal
+// calls are exempt (suspend>0).
 type faultState struct {
-	spec    *FaultSpec
+	specs   []*FaultSpec
+	done    []bool
+	spec    *FaultSpec // the (first) fault that fired in this step, nil if none
+	call    string     // the storage call it fired at
 	fired   bool
+	inTx    bool // a fault fired while a transaction was open (or was a commit/rollback failure)
 	suspend int
-	task    int // the request (task id) the fault is bound to: the first request issued after arming
+	task    int // the request (task id) the faults are bound to: the first request issued after arming
 	canary  string
 	n       int
 }
 
-func (f *faultState) arm(s *FaultSpec) {
-	f.spec = s
-	f.fired = false
+func (f *faultState) arm(ss ...*FaultSpec) {
+	f.specs, f.done = nil, nil
+	for _, s := range ss {
+		if s != nil {
+			f.specs = append(f.specs, s)
+			f.done = append(f.done, false)
+		}
+	}
+	f.fired, f.inTx, f.spec, f.call = false, false, nil, ""
 	f.task = 0
 	f.n++
 	// hostile bytes: quotes, control characters, HTML, invalid UTF-8
 	f.canary = fmt.Sprintf("CANARY%04d\"'<script>\x01\x7f\xff\xfe&amp;{}", f.n)
 }
 
-func (f *faultState) disarm(r *Run) {
-	if f.spec != nil && f.fired {
-		r.stat("fault:" + f.spec.Kind)
+func (f *faultState) desc() string {
+	if f.spec == nil {
+		return "none"
 	}
-	f.spec = nil
+	return fmt.Sprintf("%s@%d:%s", f.spec.Kind, f.spec.At, f.call)
 }
 
-func (f *faultState) matches(ci *CallInfo) bool {
-	if f.spec == nil || f.fired || f.suspend > 0 || ci.Task == nil {
+// mustRefuse: does the fault that fired oblige the request to be refused? A sentinel answer ("not found" /
+// "inactive") injected at a READ is indistinguishable from the record being absent / inactive: the request is then
+// judged as if that were the state, not as an unexpected failure.
+func (f *faultState) mustRefuse() bool {
+	if !f.fired || f.spec == nil {
 		return false
+	}
+	if (f.spec.Kind == "store-notfound" || f.spec.Kind == "store-inactive") && (strings.HasPrefix(f.call, "Get") || f.call == "IsJWTUsed" || f.call == "ClientAssertionJWTValid" || f.call == "Authenticate") {
+		return false
+	}
+	return true
+}
+
+func (f *faultState) disarm(r *Run) {
+	for i, s := range f.specs {
+		if f.done[i] {
+			r.stat("fault:" + s.Kind)
+		}
+	}
+	f.specs, f.done = nil, nil
+	f.fired = false
+}
+
+// match returns the armed spec (of one of the given kinds) that applies to this call, if any.
+func (f *faultState) match(ci *CallInfo, after bool) *FaultSpec {
+	if len(f.specs) == 0 || f.suspend > 0 || ci.Task == nil {
+		return nil
 	}
 	if f.task == 0 {
 		f.task = ci.Task.ID
 	}
 	if ci.Task.ID != f.task {
-		return false
+		return nil
 	}
-	switch f.spec.Kind {
-	case "begin-fail":
-		return ci.Name == "BeginTX"
-	case "commit-fail":
-		return ci.Name == "Commit"
-	case "rollback-fail":
-		return ci.Name == "Rollback"
+	for i, s := range f.specs {
+		if f.done[i] {
+			continue
+		}
+		isAfter := s.Kind == "lost-ack" || s.Kind == "crash-after"
+		if isAfter != after {
+			continue
+		}
+		if s.Kind == "store-inactive" && !ci.Write && strings.HasPrefix(ci.Name, "Get") {
+			continue // handled in the After hook: a contract-following store returns the record together with the sentinel
+		}
+		ok := false
+		switch s.Kind {
+		case "begin-fail":
+			ok = ci.Name == "BeginTX"
+		case "commit-fail":
+			ok = ci.Name == "Commit"
+		case "rollback-fail":
+			ok = ci.Name == "Rollback"
+		default:
+			ok = ci.Idx == s.At && (s.Call == "" || s.Call == ci.Name)
+		}
+		if ok {
+			f.done[i] = true
+			f.fired = true
+			if f.spec == nil {
+				f.spec = s
+				f.call = ci.Name
+			}
+			return s
+		}
 	}
-	if f.spec.Call != "" && f.spec.Call != ci.Name {
-		return false
-	}
-	return ci.Idx == f.spec.At
+	return nil
 }
 
 type canaryError struct{ s string }
@@ -66,55 +122,72 @@ func (r *Run) installHooks() {
 	p := r.W.Store
 	f := r.Fault
 	p.H.Before = func(ci *CallInfo) error {
-		if !f.matches(ci) {
+		s := f.match(ci, false)
+		if s == nil {
 			return nil
 		}
-		switch f.spec.Kind {
+		if p.TxOpen() || s.Kind == "commit-fail" || s.Kind == "rollback-fail" {
+			f.inTx = true
+		}
+		r.logf("   fault %s fired at call %d %s", s.Kind, ci.Idx, ci.Name)
+		switch s.Kind {
 		case "store-err", "begin-fail", "commit-fail", "rollback-fail":
-			f.fired = true
 			r.Canaries[f.canary] = true
-			r.logf("   fault %s fired at call %d %s", f.spec.Kind, ci.Idx, ci.Name)
 			return &canaryError{f.canary}
 		case "store-notfound":
-			f.fired = true
-			r.logf("   fault %s fired at call %d %s", f.spec.Kind, ci.Idx, ci.Name)
 			return fosite.ErrNotFound
 		case "store-inactive":
-			f.fired = true
-			r.logf("   fault %s fired at call %d %s", f.spec.Kind, ci.Idx, ci.Name)
 			return fosite.ErrInactiveToken
 		case "store-serial":
-			f.fired = true
-			r.logf("   fault %s fired at call %d %s", f.spec.Kind, ci.Idx, ci.Name)
 			return fosite.ErrSerializationFailure
 		case "crash-before":
-			f.fired = true
-			r.logf("   fault %s fired at call %d %s", f.spec.Kind, ci.Idx, ci.Name)
 			panic(crashSentinel{At: ci.Name})
 		}
 		return nil
 	}
 	p.H.After = func(ci *CallInfo, err error) error {
-		if f.spec == nil || f.fired || f.suspend > 0 || ci.Task == nil || ci.Task.ID != f.task {
+		if len(f.specs) == 0 || f.suspend > 0 || ci.Task == nil || ci.Task.ID != f.task {
 			return err
 		}
-		if f.spec.Call != "" && f.spec.Call != ci.Name {
-			return err
-		}
-		if ci.Idx != f.spec.At {
-			return err
-		}
-		switch f.spec.Kind {
-		case "lost-ack":
-			if err == nil && ci.Write {
+		// peek without consuming when the kind does not apply to this call
+		for i, s := range f.specs {
+			inactiveRead := s.Kind == "store-inactive" && !ci.Write && strings.HasPrefix(ci.Name, "Get")
+			if f.done[i] || (s.Kind != "lost-ack" && s.Kind != "crash-after" && !inactiveRead) {
+				continue
+			}
+			if ci.Idx != s.At || (s.Call != "" && s.Call != ci.Name) {
+				continue
+			}
+			if s.Kind == "lost-ack" && !(err == nil && ci.Write) {
+				continue
+			}
+			if inactiveRead {
+				if err != nil {
+					continue
+				}
+				f.done[i] = true
 				f.fired = true
+				if f.spec == nil {
+					f.spec = s
+					f.call = ci.Name
+				}
+				r.logf("   fault %s fired at call %d %s (record returned with the sentinel)", s.Kind, ci.Idx, ci.Name)
+				return fosite.ErrInactiveToken
+			}
+			f.done[i] = true
+			f.fired = true
+			if f.spec == nil {
+				f.spec = s
+				f.call = ci.Name
+			}
+			if p.TxOpen() {
+				f.inTx = true
+			}
+			r.logf("   fault %s fired at call %d %s", s.Kind, ci.Idx, ci.Name)
+			if s.Kind == "lost-ack" {
 				r.Canaries[f.canary] = true
-				r.logf("   fault lost-ack fired at call %d %s", ci.Idx, ci.Name)
 				return &canaryError{f.canary}
 			}
-		case "crash-after":
-			f.fired = true
-			r.logf("   fault crash-after fired at call %d %s", ci.Idx, ci.Name)
 			panic(crashSentinel{At: ci.Name})
 		}
 		return err
